@@ -81,7 +81,6 @@ type caseResult struct {
 	clause, site, detail string
 }
 
-
 // judge runs one (lab, op) case.
 func judge(f *family, lab *fedlab.Lab, op *fedlab.Op) (outcome string, fails []caseResult) {
 	return judgeText(f, lab, op.String(), op.Name, op.Vars)
@@ -233,10 +232,46 @@ func nearFamily(run *vk.Run, name string, s *fedlab.Supergraph, u *fedlab.Univer
 	} else {
 		f.layouts = append(f.layouts, fedlab.NearLayouts(s, 2, bv, 1)...)
 	}
+	// the base layout with every key-only mention of an entity declared
+	// resolvable:false, and with each entity field additionally shared
+	// (@shareable) by another subgraph
+	if len(f.layouts) > 1 {
+		base2 := f.layouts[1]
+		stub := fedlab.NewLayout(s, base2.N, base2.OwnerVector(), base2.Name+"+stubs")
+		for _, t := range s.Types {
+			if !t.IsEntity() {
+				continue
+			}
+			for sg := 0; sg < base2.N; sg++ {
+				ownsAny := false
+				for _, r := range d {
+					if r.Type == t.Name && base2.Owner[r] == sg {
+						ownsAny = true
+					}
+				}
+				if !ownsAny {
+					stub.Unresolv[t.Name] = append(stub.Unresolv[t.Name], sg)
+				}
+			}
+		}
+		f.layouts = append(f.layouts, stub)
+		for _, r := range d {
+			t := s.Type(r.Type)
+			if !t.IsEntity() || t.Field(r.Field).Requires != "" {
+				continue
+			}
+			c := fedlab.NewLayout(s, base2.N, base2.OwnerVector(), base2.Name+"+shared:"+r.String())
+			c.Shared[r] = []int{(base2.Owner[r] + 1) % base2.N}
+			f.layouts = append(f.layouts, c)
+		}
+	}
 	// every layout again with the optional @provides edges switched on
 	if len(provides) > 0 {
 		n := len(f.layouts)
 		for _, l := range f.layouts[1:n] {
+			if strings.Contains(l.Name, "+") {
+				continue
+			}
 			c := fedlab.NewLayout(s, l.N, l.OwnerVector(), l.Name+"+provides")
 			for _, pv := range provides {
 				c.Provides[pv] = true
@@ -306,13 +341,15 @@ func TestCheck(t *testing.T) {
 	fams := families(run)
 	if run.Replay != "" {
 		var in struct {
-			Family   string         `json:"family"`
-			Layout   []int          `json:"layout"`
-			N        int            `json:"n"`
-			Provides []string       `json:"provides"`
-			Op       string         `json:"op"`
-			OpName   string         `json:"opname"`
-			Vars     map[string]any `json:"vars"`
+			Family   string           `json:"family"`
+			Layout   []int            `json:"layout"`
+			N        int              `json:"n"`
+			Provides []string         `json:"provides"`
+			Shared   map[string][]int `json:"shared"`
+			Unresolv map[string][]int `json:"unresolvable"`
+			Op       string           `json:"op"`
+			OpName   string           `json:"opname"`
+			Vars     map[string]any   `json:"vars"`
 		}
 		if err := run.ReplayInput(&in); err != nil {
 			t.Fatal(err)
@@ -325,6 +362,13 @@ func TestCheck(t *testing.T) {
 			for _, p := range in.Provides {
 				parts := strings.SplitN(p, ".", 2)
 				l.Provides[fedlab.FieldRef{Type: parts[0], Field: parts[1]}] = true
+			}
+			for k, v := range in.Shared {
+				parts := strings.SplitN(k, ".", 2)
+				l.Shared[fedlab.FieldRef{Type: parts[0], Field: parts[1]}] = v
+			}
+			for k, v := range in.Unresolv {
+				l.Unresolv[k] = v
 			}
 			for _, sg := range l.Subgraphs() {
 				fmt.Printf("---- subgraph %s\n%s", sg.Name, sg.SDL)
@@ -388,7 +432,7 @@ func TestCheck(t *testing.T) {
 					for _, fl := range fails {
 						run.Violate(vk.Violation{Clause: fl.clause, Site: fl.site, Class: f.name,
 							Detail: fmt.Sprintf("layout %s\noperation %s\nvariables %v\ndecoration %q\n%s", l.String(), op.String(), op.Vars, op.Note, fl.detail),
-							Input:  map[string]any{"family": f.name, "layout": l.OwnerVector(), "n": l.N, "provides": l.ProvidesList(), "op": op.String(), "opname": op.Name, "vars": op.Vars}})
+							Input:  map[string]any{"family": f.name, "layout": l.OwnerVector(), "n": l.N, "provides": l.ProvidesList(), "shared": l.SharedMap(), "unresolvable": l.Unresolv, "op": op.String(), "opname": op.Name, "vars": op.Vars}})
 					}
 				}
 				if oi%50 == 0 && run.Expired() {
